@@ -106,6 +106,12 @@ class SIntegrator(Integrator):
     def get_state(self, copy=True):
         return self.t, self.state, self.wiener
 
+    def arguments(self, args):
+        # The stochastic integrators keep the system in ``rhs`` (there is no
+        # ``system`` attribute for ``Integrator.arguments`` to use).
+        self.rhs.arguments(args)
+        self.reset()
+
     def integrate(self, t, copy=True):
         """
         Evolve to t.
